@@ -110,6 +110,16 @@ type Session struct {
 	ShmDeferred  int // pointer batches held until end of stream (write-ahead ops)
 	ShmErr       error
 	advertised   bool
+	// Hold, when set, decides per pointer batch of a unary response whether the
+	// client keeps it unresolved for now (a client that consumes results
+	// lazily); ReleaseNow is asked between calls — when the server is idle, as
+	// the segment's one-party-at-a-time contract requires — which held pointer
+	// to resolve and free next (-1: none now). Everything still held is
+	// resolved and freed, in ReleaseNow's order, before the client disconnects.
+	Hold       func() bool
+	ReleaseNow func(n int, final bool) int
+	held       []*heldPtr
+	HeldMax    int
 	// ExtInput, when set, may replace a (non-cancel) stream input by an
 	// external-location pointer batch the server has to fetch and resolve.
 	ExtInput func(b arrow.RecordBatch) arrow.RecordBatch
@@ -145,6 +155,51 @@ func (s *Session) resolve(rec arrow.RecordBatch) (arrow.RecordBatch, bool) {
 	}
 	s.ShmResolved++
 	return out, true
+}
+
+type heldPtr struct {
+	rec arrow.RecordBatch
+	res *OpResult
+	idx int
+}
+
+// releaseHeld resolves held pointer i now: its slot's bytes are read only at
+// this moment, decoded into the result it belongs to, and the slot is freed.
+func (s *Session) releaseHeld(i int) {
+	p := s.held[i]
+	s.held = append(s.held[:i], s.held[i+1:]...)
+	out, off, release, err := vgirpc.ResolveShmBatch(p.rec, s.Shm)
+	if err != nil {
+		if s.ShmErr == nil {
+			s.ShmErr = fmt.Errorf("client could not resolve a pointer batch it had held: %w", err)
+		}
+		p.rec.Release()
+		return
+	}
+	p.res.AllBatch[p.idx] = hx.DecodeBatch(out)
+	if release {
+		_ = s.Shm.FreeOffset(off)
+	}
+	out.Release()
+	p.rec.Release()
+	s.ShmResolved++
+}
+
+// drainHeld lets ReleaseNow release held pointers (final: all of them).
+func (s *Session) drainHeld(final bool) {
+	for len(s.held) > 0 {
+		i := 0
+		if s.ReleaseNow != nil {
+			i = s.ReleaseNow(len(s.held), final)
+		}
+		if i < 0 || i >= len(s.held) {
+			if !final {
+				return
+			}
+			i = 0
+		}
+		s.releaseHeld(i)
+	}
 }
 
 // viaShm ships b through the client's segment when enabled and it fits.
@@ -213,12 +268,16 @@ func (s *Session) Start(name string) {
 					}
 				}
 			}
+			if s.Pipeline == 0 {
+				s.drainHeld(false)
+			}
 			r := s.runOp(op)
 			s.Results = append(s.Results, r)
 			if r.ClientErr != nil {
 				break
 			}
 		}
+		s.drainHeld(true)
 		s.ClientDone = true
 		_ = s.CConn.Close()
 	})
@@ -363,10 +422,27 @@ func (s *Session) runOp(op *Op) *OpResult {
 		}
 	}
 	if op.Kind != "stream" {
-		st, err := hx.ReadStreamFn(s.CConn, s.resolve)
+		var pend []*heldPtr
+		n := 0
+		st, err := hx.ReadStreamFn(s.CConn, func(rec arrow.RecordBatch) (arrow.RecordBatch, bool) {
+			n++
+			if s.Shm != nil && s.Hold != nil && s.Pipeline == 0 && vgirpc.IsShmPointerBatch(rec) && s.Hold() {
+				rec.Retain()
+				pend = append(pend, &heldPtr{rec: rec, res: res, idx: n - 1})
+				return rec, false
+			}
+			return s.resolve(rec)
+		})
 		if err != nil {
 			res.ClientErr = fmt.Errorf("read unary response: %w", err)
+			for _, p := range pend {
+				p.rec.Release()
+			}
 			return res
+		}
+		s.held = append(s.held, pend...)
+		if len(s.held) > s.HeldMax {
+			s.HeldMax = len(s.held)
 		}
 		res.First = st
 		res.AllBatch = st.Batches
